@@ -636,7 +636,9 @@ fn b_skip(rng: &mut Rng, ctx: &Ctx) -> Built {
 fn b_delay(rng: &mut Rng, ctx: &Ctx) -> Built {
     let n = gen_len(rng, ctx, 4);
     let data: Vec<u32> = (1..=n as u32).collect();
-    let delay = if rng.chance(1, 2) { rng.range(0, 70) } else { *rng.pick(&[0usize, 1, 3, 500, 1023, 1024, 1025, 3000]) };
+    // boundary values relative to the capacity of the streams of this case
+    let cap = std::cmp::max(2, ctx.stream_bytes / 4);
+    let delay = if rng.chance(1, 2) { rng.range(0, 70) } else { *rng.pick(&[0usize, 1, 3, 500, cap - 1, cap, cap, cap + 1, 3000]) };
     let (inp, r) = tagged_in(rng, ctx, data);
     let (b, o) = Delay::new(r, delay);
     Built {
